@@ -11,6 +11,7 @@
 #include <bxdecay0/bb_utils.h>
 #include <bxdecay0/decay0_generator.h>
 #include <bxdecay0/event.h>
+#include <bxdecay0/mdl_event_op.h>
 
 #include "diffcore_port.h"
 
@@ -254,6 +255,34 @@ int main(int argc, char ** argv)
         T.rewind();
         g->shoot(T, E);
         check("reset-reinit", "reset() and identical re-configuration", E, T.pos);
+      }
+      // H8b: an abandoned configuration (window, registered operation; never initialised, or an initialisation that raised),
+      // then reset() and the real configuration
+      for (int variant = 0; variant < 2; variant++) {
+        std::unique_ptr<decay0_generator> g(new decay0_generator);
+        g->set_decay_category(decay0_generator::DECAY_CATEGORY_DBD);
+        g->set_decay_isotope("Mo100");
+        g->set_decay_dbd_level(0);
+        g->set_decay_dbd_mode(bxdecay0::DBDMODE_1);
+        g->set_decay_dbd_esum_range(2.0, 2.5);
+        auto op = std::make_shared<bxdecay0::momentum_direction_lock_event_op>();
+        op->set(bxdecay0::INVALID_PARTICLE, 0, 0.0, 0.0, 1.0, 0.2, false);
+        g->add_operation(op);
+        if (variant == 1) {
+          try {
+            Tape tj(seed, 6);
+            g->initialize(tj); // raises: mode 1 does not support an energy range
+          } catch (std::exception &) {
+          }
+        }
+        g->reset();
+        configure(*g, c);
+        Tape ti2(seed, 2);
+        g->initialize(ti2);
+        bxdecay0::event E;
+        T.rewind();
+        g->shoot(T, E);
+        check("reset-before-initialize", variant ? "abandoned configuration whose initialize() raised, reset(), real configuration" : "abandoned configuration (never initialised), reset(), real configuration", E, T.pos);
       }
       // H9: initialisation with another deviate source
       for (uint64_t is : {3ull, 4ull}) {
